@@ -11,7 +11,7 @@ from . import sqlproxy as SP
 OPS_ALL = ["mk", "mk", "mk_child", "mk_child", "add", "set", "set", "set_parent", "bs_append", "bs_remove", "bs_replace", "tag_add", "tag_remove",
            "node_parent", "follow", "unfollow", "set_p", "k_rename", "h_doc", "delete", "expunge", "flush", "flush", "commit", "rollback",
            "begin_nested", "sp_commit", "sp_rollback", "close", "requery", "get", "lazy", "expire", "expire_all", "refresh",
-           "mut_data", "mut_items", "ext_update", "merge", "drop", "gc", "pickle_rt", "populate_existing", "q_ops", "g_ops", "expire_attr", "read"]
+           "mut_data", "mut_items", "ext_update", "merge", "drop", "gc", "pickle_rt", "populate_existing", "q_ops", "g_ops", "expire_attr", "read", "m_ops", "m_reload"]
 
 
 _ENGINES = {}
@@ -40,6 +40,7 @@ class Run:
         self.deleted_in_op = set()
         self.pk_mem = {}
         self.txn_flushed = False
+        self.dropped_pks = {}
         fk_on = self.cfg.get("fk_on", True)
         key = (os.getpid(), self.cfg["universe"], fk_on)
         self.plan = SP.Plan(case.get("faults") or [])
@@ -77,7 +78,7 @@ class Run:
         mod.plan = self.plan
         holder["run"] = self
         self.obs = sqlite3.connect(self.path, timeout=0, isolation_level=None)
-        for t in ("b_t", "nf", "o", "g", "r", "q", "h", "d", "bl", "p", "b", "a2", "a", "t", "node", "k"):
+        for t in ("b_t", "nf", "o", "g", "r", "q", "h", "d", "bl", "p", "b", "a2", "a", "t", "node", "k", "m"):
             self.obs.execute("delete from %s" % t)
         self.session = None
         self.new_session()
@@ -133,7 +134,11 @@ class Run:
         """track everything the session holds (objects loaded by cascades/lazy loads/queries)"""
         if self.cfg.get("no_adopt"):
             return
-        for o in list(self.session.identity_map.values()) + list(self.session.new):
+        fresh = [o for o in list(self.session.identity_map.values()) + list(self.session.new)
+                 if not (id(o) in self.by_id and self.by_id[id(o)]["obj"] is o)]
+        # the identity map's insertion order follows set iteration inside the unit of work (address dependent): labels must not
+        fresh.sort(key=lambda o: (type(o).__name__, repr(OS.pk_of(o))))
+        for o in fresh:
             self.track(o)
 
     def in_session(self, obj):
@@ -199,7 +204,7 @@ class Run:
                 warnings.simplefilter("ignore")
                 for i, op in enumerate(self.case["prog"]):
                     self.step(i, op)
-                    if any(v["prop"] in self.case.get("stop_on", ()) or not self.case.get("stop_on") for v in self.viol):
+                    if any(v["prop"] in self.case.get("stop_on", ()) or v["prop"] == "*" or not self.case.get("stop_on") for v in self.viol):
                         break
                 if not self.viol:
                     self.step(len(self.case["prog"]), ["commit", 0, 0])
@@ -281,6 +286,19 @@ class Run:
                 self.V("C30", "unexpected_db_error", "operation %s raised %s: %s" % (kind, type(e).__name__, str(e).split("\n")[0][:100]), op=i)
             self.session.rollback()
             self.after_rollback()
+        except (AssertionError, AttributeError, KeyError, TypeError, IndexError, self.m["exc"].SQLAlchemyError) as e:
+            # an internal error escaping from documented usage: the operation did not do its work (counts for whichever property is checked)
+            import traceback
+            tb = traceback.extract_tb(e.__traceback__)
+            site = next((f for f in reversed(tb) if "/sqlalchemy/" in f.filename), tb[-1])
+            out = "InternalError"
+            self.V("*", "unexpected_exception", "operation %s raised %s: %s (at %s:%s)" % (kind, type(e).__name__, str(e).split("\n")[0][:100],
+                                                                                        site.filename.split("/sqlalchemy/")[-1], site.name), op=i)
+            try:
+                self.session.rollback()
+                self.after_rollback()
+            except Exception:
+                pass
         self.trace.append([i, kind, a1, a2, out if isinstance(out, (str, int, type(None))) else str(out)[:40]])
         self.adopt()
         if kind not in ("flush", "commit", "rollback", "begin_nested", "sp_commit", "sp_rollback", "close") and \
@@ -297,8 +315,9 @@ class Run:
         if out == "skip":
             return
         self.pk_mem = {e["label"]: OS.pk_of(e["obj"]) for e in self.entries() if self.in_session(e["obj"])}
-        self.check_lifecycle(i, kind, before)
-        if kind in ("rollback", "sp_rollback") or (isinstance(out, str) and out.endswith("Error")):
+        rolled_back = kind in ("rollback", "sp_rollback") or (isinstance(out, str) and out.endswith("Error"))
+        self.check_lifecycle(i, kind, before, rolled_back)
+        if rolled_back:
             self.retire_rolled_back(before)
         self.check_backrefs(i, kind)
         self.check_identity(i, kind)
@@ -383,7 +402,7 @@ class Run:
         return e["label"]
 
     def op_set(self, a1, a2):
-        e = self.pick(a1, lambda e: self.usable(e))
+        e = self.pick(a1, lambda e: self.usable(e) and self.U["scal"][e["cls"]])
         if e is None:
             return "skip"
         o = e["obj"]
@@ -1073,7 +1092,7 @@ class Run:
                            "row) but is 'detached', carrying an identity key, instead of transient" % (e["cls"], pk))
 
     def tab_of(self, cls):
-        return {"A": "a", "A2": "a", "B": "b", "T": "t", "Node": "node", "K": "k", "P": "p", "BL": "bl", "D": "d", "H": "h", "Q": "q", "R": "r", "G": "g", "O": "o"}[cls]
+        return {"A": "a", "A2": "a", "B": "b", "T": "t", "Node": "node", "K": "k", "P": "p", "BL": "bl", "D": "d", "H": "h", "Q": "q", "R": "r", "G": "g", "O": "o", "M": "m"}[cls]
 
     def op_begin_nested(self, a1, a2):
         if len(self.sp_stack) >= 3:
@@ -1134,9 +1153,10 @@ class Run:
         return False
 
     def op_close(self, a1, a2):
-        if self.session.new or self.session.dirty or self.session.deleted or any(
+        if self.session.new or self.session.dirty or self.session.deleted or self.txn_flushed or any(
                 OS.state_of(e["obj"]) == "deleted" for e in self.entries()):
-            return "skip"      # closing with work in flight is a rollback; objects in the 'deleted' state would be left in limbo
+            return "skip"      # closing with work in flight is a rollback (detached objects would keep the rolled-back values);
+            #                    objects in the 'deleted' state would be left in limbo
         self.session.close()
         self.new_session()
         self.prev_tables = self.probe(committed=True)
@@ -1561,8 +1581,419 @@ class Run:
         self.bump("probe:merge_mode_%d" % mode)
         return "merge%d %s#%s" % (mode, cn, pk)
 
+    # ---- C49: one attribute per Mutable* flavour
+    def m_row_values(self, row):
+        """decoded column values of an m row: d (JSON), l / s (pickle), pt (x, y)"""
+        import json
+        import pickle as _p
+        cols = self.U["tables"]["m"]
+        g = lambda c: row[cols.index(c)]
+        return {"d": json.loads(g("d")) if g("d") is not None else None, "l": _p.loads(g("l")) if g("l") is not None else None,
+                "s": _p.loads(g("s")) if g("s") is not None else None,
+                "pt": None if g("x") is None and g("y") is None else (g("x"), g("y"))}
+
+    def m_plain(self, an, v):
+        if v is None:
+            return None
+        return {"d": dict, "l": list, "s": set, "pt": lambda p: (p.x, p.y)}[an](v)
+
+    def op_m_ops(self, a1, a2):
+        """every mutating method of MutableDict / MutableList / MutableSet / a MutableComposite, plain assignment (coercion), nested
+        replacement; after each in-place change of a persistent object the parent must be flagged (session.dirty)"""
+        C = self.U["classes"]
+        e = self.pick(a1, lambda e: e["cls"] == "M" and self.usable(e) and OS.state_of(e["obj"]) != "transient")
+        if e is None or a2 % 16 == 0:
+            if len(self.entries(self.of("M"))) >= 4:
+                return "skip"
+            n = self._newid("M")
+            o = C["M"](id=n, d={"k": a2, "n": {"z": 1}}, l=[a2, 1], s={a2, 2}, pt=self.m["Point"](a1, a2))
+            self.track(o, "M")
+            self.session.add(o)
+            return "M"
+        o = e["obj"]
+        flavour = ("d", "l", "s", "pt")[a2 % 4]
+        how = (a2 // 4) % 12
+        if OS.state_of(o) == "persistent" and not self.cfg.get("autoflush", True) and not OS.loaded(o, "x" if flavour == "pt" else flavour)[0] \
+                and (self.session.dirty or self.session.new or self.session.deleted):
+            return "skip"      # R3
+        v = getattr(o, flavour)
+        was_dirty = o in self.session.dirty
+        if was_dirty and OS.state_of(o) == "persistent":
+            # make "is flagged by *this* mutation" observable: start from a clean parent
+            self.session.flush()
+            self.txn_flushed = True
+            self.prev_tables = self.probe()
+        what = None
+        if v is not None and how == 11 and a1 % 3 == 0 and flavour != "pt":
+            # an assignment the Mutable type rejects (documented ValueError) is a failed operation: the attribute keeps its value, and
+            # that value stays tracked - the mutation that follows must still be seen
+            try:
+                setattr(o, flavour, 42)
+                self.V("C49", "bad_value_accepted", "assigning 42 to a Mutable%s attribute did not raise" % flavour)
+            except ValueError:
+                self.bump("probe:mutable_rejected_assignment")
+            if getattr(o, flavour) is not v:
+                self.V("C49", "rejected_assignment_changed_value", "a rejected assignment replaced the attribute value")
+            how = a1 % 11
+        if v is None or how == 11:
+            new = {"d": {"a": a2}, "l": [a2, a2], "s": {a2, -a2}, "pt": self.m["Point"](a2, a1)}[flavour]
+            setattr(o, flavour, new)          # plain value: coerced to the Mutable type
+            v2 = getattr(o, flavour)
+            if flavour != "pt" and not isinstance(v2, (self.m["MutableDict"], self.m["MutableList"], self.m["MutableSet"])):
+                self.V("C49", "plain_value_not_coerced", "assigning a plain %s to a Mutable attribute left a %s" % (type(new).__name__, type(v2).__name__))
+            what = "assign"
+        elif flavour == "d":
+            keys = sorted(k for k in v)
+            k0 = keys[a1 % len(keys)] if keys else None
+            if how == 0:
+                v["k%d" % (a2 % 3)] = a2 + 1000
+                what = "setitem"
+            elif how == 1 and k0 is not None:
+                del v[k0]
+                what = "delitem"
+            elif how == 2:
+                v.update({"u": a2 + 1000}, w=a1 + 1000)
+                what = "update"
+            elif how == 3 and k0 is not None:
+                v.pop(k0)
+                what = "pop"
+            elif how == 4 and keys:
+                v.popitem()
+                what = "popitem"
+            elif how == 5:
+                k = "sd%d" % a2
+                if k in v:
+                    return "skip"
+                v.setdefault(k, a2)
+                what = "setdefault"
+            elif how == 6 and keys:
+                v.clear()
+                what = "clear"
+            elif how == 7:
+                if v.get("u") == a2 + 2000:
+                    return "skip"
+                v |= {"u": a2 + 2000}
+                what = "ior"
+            elif how == 8:
+                # nested value: a plain dict inside is not tracked (documented); replacing it through the tracked parent is
+                v["n"] = {"z": a2 + 1000}
+                what = "nested_replace"
+            else:
+                return "skip"
+        elif flavour == "l":
+            if how == 0:
+                v.append(a2)
+                what = "append"
+            elif how == 1:
+                v.extend([a2, a1])
+                what = "extend"
+            elif how == 2 and v:
+                v.pop()
+                what = "pop"
+            elif how == 3:
+                v.insert(0, a2)
+                what = "insert"
+            elif how == 4 and v:
+                if v[0] == a2 + 1000:
+                    return "skip"
+                v[0] = a2 + 1000
+                what = "setitem"
+            elif how == 5 and v:
+                del v[0]
+                what = "delitem"
+            elif how == 6 and v:
+                v.remove(v[-1])
+                what = "remove"
+            elif how == 7 and len(v) > 1 and list(v) != sorted(v):
+                v.sort()
+                what = "sort"
+            elif how == 8 and len(v) > 1 and list(v) != list(reversed(v)):
+                v.reverse()
+                what = "reverse"
+            elif how == 9:
+                v += [a2]
+                what = "iadd"
+            elif how == 10 and v and len(v) < 20:
+                v *= 2
+                what = "imul"
+            elif how == 6 or (how == 2 and not v):
+                return "skip"
+            else:
+                if not v:
+                    return "skip"
+                v.clear()
+                what = "clear"
+        elif flavour == "s":
+            if how == 0:
+                if a2 + 1000 in v:
+                    return "skip"
+                v.add(a2 + 1000)
+                what = "add"
+            elif how == 1 and v:
+                v.remove(sorted(v)[0])
+                what = "remove"
+            elif how == 2 and v:
+                v.discard(sorted(v)[-1])
+                what = "discard"
+            elif how == 3 and v:
+                v.pop()
+                what = "pop"
+            elif how == 4:
+                if {a2 + 2000, a1 + 2000} <= v:
+                    return "skip"
+                v.update({a2 + 2000}, [a1 + 2000])
+                what = "update"
+            elif how == 5 and len(v) > 1:
+                v.intersection_update(sorted(v)[:1])
+                what = "intersection_update"
+            elif how == 6 and v:
+                v.difference_update(sorted(v)[:1])
+                what = "difference_update"
+            elif how == 7:
+                v.symmetric_difference_update({a2 + 3000, sorted(v)[0] if v else a1})
+                what = "symmetric_difference_update"
+            elif how == 8:
+                if a2 + 4000 in v:
+                    return "skip"
+                v |= {a2 + 4000}
+                what = "ior"
+            elif how == 9 and len(v) > 1:
+                v &= set(sorted(v)[:1])
+                what = "iand"
+            elif how == 10 and v:
+                v -= {sorted(v)[0]}
+                what = "isub"
+            else:
+                v ^= {a2 + 5000}
+                what = "ixor"
+        else:
+            if how % 2 == 0:
+                if v.x == a2 + 1000:
+                    return "skip"
+                v.x = a2 + 1000
+                what = "setattr_x"
+            else:
+                if v.y == a1 + 1000:
+                    return "skip"
+                v.y = a1 + 1000
+                what = "setattr_y"
+        if OS.state_of(o) == "persistent" and self.in_session(o) and o not in self.session.dirty:
+            self.V("C49", "mutation_not_flagged", "Mutable%s %s() on a persistent, clean parent did not mark it as modified"
+                   % ({"d": "Dict", "l": "List", "s": "Set", "pt": "Composite"}[flavour], what))
+        self.bump("probe:mutable_%s_%s" % (flavour, what))
+        return "%d.%s %s" % (e["label"], flavour, what)
+
+    def op_m_reload(self, a1, a2):
+        """C49 round trips: the Mutable values of a persistent parent go through commit+expire, refresh, populate_existing, pickling,
+        merge into the session or a close + reload; the next m_ops mutation must still be tracked"""
+        import pickle
+        e = self.pick(a1, lambda e: e["cls"] == "M" and OS.state_of(e["obj"]) == "persistent" and self.in_session(e["obj"])
+                      and e["obj"] not in self.session.deleted)
+        if e is None:
+            return "skip"
+        o = e["obj"]
+        how = a2 % 8
+        sess = self.session
+        busy = bool(sess.new or sess.dirty or sess.deleted)
+        if busy:
+            sess.flush()
+            self.txn_flushed = True
+            self.prev_tables = self.probe()
+        if how == 0:
+            sess.expire(o)
+            what = "expire"
+        elif how == 1:
+            sess.refresh(o)
+            what = "refresh"
+        elif how == 2:
+            sess.refresh(o, ["d", "l"])
+            what = "refresh_attrs"
+        elif how == 3:
+            sess.execute(self.m["select"](self.U["classes"]["M"]).execution_options(populate_existing=True)).scalars().all()
+            what = "populate_existing"
+        elif how in (4, 5):
+            if self.txn_flushed or self.sp_stack:
+                return "skip"
+            # pickle round trip of the parent: the copy replaces the original in the session (add of the detached copy, or merge)
+            data = pickle.dumps(o)
+            if how == 4:
+                if sess.in_transaction():
+                    sess.commit()
+                sess.expunge(o)
+                e["retired"] = True
+                o2 = pickle.loads(data)
+                self.track(o2, "M")
+                sess.add(o2)
+                what = "pickle_add"
+            else:
+                o2 = pickle.loads(data)
+                merged = sess.merge(o2)
+                if merged is not o:
+                    self.V("C45", "merge_returned_other_instance", "merge() of an unpickled M returned a different object than the session's instance")
+                what = "pickle_merge"
+        elif how == 6:
+            # merge of a transient copy carrying plain values
+            C = self.U["classes"]["M"]
+            src = C(id=OS.pk_of(o), d={"m": a2}, l=[a2], s={a2}, pt=self.m["Point"](a2, a2))
+            merged = sess.merge(src)
+            if merged is not o:
+                self.V("C45", "merge_returned_other_instance", "merge() of a transient M copy returned a different object than the session's instance")
+            what = "merge_copy"
+        else:
+            if self.txn_flushed or self.sp_stack:
+                return "skip"
+            sess.commit()
+            what = "commit_expire"
+        if not sess.in_transaction():
+            self.txn_flushed = False
+        self.adopt()
+        self.prev_tables = self.probe()
+        self.bump("probe:mutable_roundtrip_" + what)
+        return "%d %s" % (e["label"], what)
+
+    # ---- C48: the application drops its references
+    def referenced_elsewhere(self, o):
+        """is o reachable from another live object of the session: loaded relationship values, their committed originals, queued
+        backref mutations of unloaded collections"""
+        insp = self.m["inspect"]
+        states = {id(st): st for st in list(self.session.identity_map.all_states()) + [insp(x) for x in self.session.new]}
+        for e in self.objs:          # everything the application ever held and that is still alive (deleted / detached objects included)
+            x = e["obj"] if e["obj"] is not None else e["ref"]()
+            if x is not None:
+                states[id(insp(x))] = insp(x)
+            del x
+        states = list(states.values())
+
+        def holds(v):
+            if v is o:
+                return True
+            if isinstance(v, dict):
+                return any(y is o for y in v.values())
+            if isinstance(v, (list, set, tuple, frozenset)):
+                return any(y is o for y in v)
+            return False
+
+        for st in states:
+            x = st.obj()
+            if x is None or x is o:
+                continue
+            if any(holds(v) for v in list(st.dict.values())) or any(holds(v) for v in list(st.committed_state.values())):
+                return True
+            for pm in (st.__dict__.get("_pending_mutations") or {}).values():
+                if any(y is o for y in list(pm.added_items) + list(pm.deleted_items)):
+                    return True
+        return False
+
+    def _doomed_ids(self, extra=()):
+        out = set()
+        for d in list(self.session.deleted) + list(extra):
+            out.add(id(d))
+            out.update(id(x) for x in self.closure(d, "delete"))
+        return out
+
     def op_drop(self, a1, a2):
-        return "skip"
+        """C48: the application lets go of 1-3 objects the session holds (modified, pending, delete()-marked or clean), the collector runs,
+        then the session is flushed: every change made before the drop must be in the rows; clean objects nobody refers to are released"""
+        sess = self.session
+        insp = self.m["inspect"]
+        if self.cfg.get("autoflush", True) is False and False:
+            return "skip"
+        exp0 = self.pre_flush_expectations()
+        orphan_ids = {id(x) for x in exp0["orphans"]}
+        doomed = self._doomed_ids(exp0["orphans"]) - {id(x) for x in sess.deleted}
+        del exp0
+        # while anything is being deleted, objects a delete cascade can reach through relationships that are not loaded are left alone
+        deleting = bool(sess.deleted) or bool(orphan_ids)
+        cands = [e for e in self.entries() if self.in_session(e["obj"]) and not e.get("retired") and id(e["obj"]) not in orphan_ids
+                 and not (deleting and e["cls"] in ("B", "BL", "D", "R", "O"))
+                 and id(e["obj"]) not in doomed and OS.pk_of(e["obj"]) is not None and OS.state_of(e["obj"]) in ("pending", "persistent")]
+        if not cands:
+            return "skip"
+        chosen = []
+        for j in range(1 + a2 % 3):
+            c = cands[(a1 + j * 7) % len(cands)]
+            if c not in chosen:
+                chosen.append(c)
+        expect = []
+        for e in chosen:
+            o = e["obj"]
+            st = OS.state_of(o)
+            cn, pk, tab = e["cls"], OS.pk_of(o), self.tab_of(e["cls"])
+            if cn == "K" and OS.loaded(o, "name")[0] and o not in sess.deleted:
+                pk = OS.loaded(o, "name")[1]         # a pending primary key change: the row will be found under the new key
+            if o in sess.deleted:
+                kind = "delete"
+            elif st == "pending":
+                kind = "insert"
+            elif o in sess.dirty:
+                kind = "update"
+            else:
+                kind = "clean"
+            vals = {}
+            if kind in ("insert", "update"):
+                for an in self.U["scal"][cn]:
+                    ok, v = OS.loaded(o, an)
+                    if ok and an != "extra":
+                        vals[an] = v
+                for an in OS.rel_attrs(self.U, o):
+                    r = OS.rel_of(self.U, o, an)
+                    if r["kind"] == "m2o":
+                        ok, want = self.expected_fk(o, an)
+                        tgt = OS.loaded(o, an)[1]
+                        if ok and not (tgt is not None and (tgt in sess.deleted or id(tgt) in doomed)):
+                            vals[r["fk"][1]] = want
+                        del tgt
+                if cn == "M":
+                    for an in ("d", "l", "s", "pt"):
+                        ok, v = OS.loaded(o, "x" if an == "pt" else an)
+                        if ok:
+                            vals["m:" + an] = self.m_plain(an, getattr(o, an))
+            lone = kind == "clean" and not insp(o).modified and not self.referenced_elsewhere(o)
+            expect.append({"kind": kind, "cls": cn, "pk": pk, "tab": tab, "vals": vals, "ref": e["ref"], "lone": lone, "key": insp(o).key})
+            self.dropped_pks.setdefault(tab, set()).update({pk, OS.pk_of(o)})
+            if cn == "A2":
+                self.dropped_pks.setdefault("a2", set()).add(pk)
+            e["obj"] = None
+            self.by_id.pop(id(o), None)
+            self.removed_rs = [x for x in self.removed_rs if x is not o]
+            del o
+        del chosen, cands, e, c
+        gc.collect()
+        for x in expect:
+            if x["lone"]:
+                if x["ref"]() is not None or x["key"] in sess.identity_map:
+                    # a clean object that nothing refers to is released from the (weak-referencing) identity map
+                    self.V("C48", "clean_object_not_released", "a clean persistent %s #%s with no remaining references is still held by the "
+                           "session after garbage collection" % (x["cls"], x["pk"]))
+                else:
+                    self.bump("probe:clean_object_released")
+            elif x["kind"] in ("insert", "update", "delete") and x["ref"]() is None:
+                self.V("C48", "object_with_pending_change_released", "%s #%s with a pending %s was garbage collected before the flush"
+                       % (x["cls"], x["pk"], x["kind"]))
+        self.bump("probe:dropped_with_pending_change", sum(1 for x in expect if x["kind"] != "clean"))
+        self._flush("commit" if a2 % 5 == 0 and not self.sp_stack else "flush")
+        now = self.prev_tables
+        for x in expect:
+            row = now[x["tab"]].get(x["pk"])
+            if x["kind"] == "delete":
+                if row is not None:
+                    self.V("C48", "dropped_delete_not_flushed", "%s #%s was marked for deletion, then dropped by the application; its row is "
+                           "still there after flush" % (x["cls"], x["pk"]))
+                continue
+            if x["kind"] == "clean":
+                continue
+            if row is None:
+                self.V("C48", "dropped_change_not_flushed", "%s #%s had a pending %s when the application dropped it; it has no row after flush"
+                       % (x["cls"], x["pk"], x["kind"]))
+                continue
+            cols = self.U["tables"][x["tab"]]
+            mvals = self.m_row_values(row) if x["cls"] == "M" else {}
+            for an, v in x["vals"].items():
+                got = mvals[an[2:]] if an.startswith("m:") else row[cols.index(an)]
+                if got != v:
+                    self.V("C48", "dropped_change_not_flushed", "%s #%s.%s was %r when the application dropped the object (pending %s); the row "
+                           "has %r after flush" % (x["cls"], x["pk"], an, v, x["kind"], got))
+        return "drop%d" % len(expect)
 
     def op_gc(self, a1, a2):
         gc.collect()
@@ -1663,6 +2094,11 @@ class Run:
                     dbv = _p.loads(dbv) if dbv is not None else None
                     if dbv != (list(v) if v is not None else None):
                         self.V("C49", "mutable_value_not_persisted", "A #%s.items is %r in memory but %r in the row after %s" % (pk, v, dbv, how))
+            if cn == "M":
+                for an, dbv in self.m_row_values(row).items():
+                    ok, v = OS.loaded(o, an)
+                    if ok and self.m_plain(an, v) != dbv:
+                        self.V("C49", "mutable_value_not_persisted", "M #%s.%s is %r in memory but %r in the row after %s" % (pk, an, v, dbv, how))
             for (c2, an), r in U["rels"].items():
                 if c2 != cn:
                     continue
@@ -1703,8 +2139,12 @@ class Run:
             pk = OS.pk_of(e["obj"])
             if pk is not None:
                 known[self.tab_of(e["cls"])].add(pk)
+        for t, pks in self.dropped_pks.items():
+            # rows of objects the application has let go of (C48): their pending changes are flushed without a tracked object
+            known[t] |= pks
+            owned[t] |= pks
         # rows that belong to no object of the session: untouched
-        for t in ("a", "b", "t", "node", "k", "p", "bl", "d", "h", "q", "r", "g", "o"):
+        for t in ("a", "b", "t", "node", "k", "p", "bl", "d", "h", "q", "r", "g", "o", "m"):
             for pk, row in prev[t].items():
                 if pk in owned[t]:
                     continue
@@ -1837,8 +2277,9 @@ class Run:
                 e["retired"] = True      # its attribute history still refers to the rolled-back flush; the application lets go of it
                 self.bump("probe:object_made_transient_by_rollback")
 
-    def check_lifecycle(self, i, kind, before):
-        """C35: exactly one state; events of each object form a walk from the state before the operation to the state after it"""
+    def check_lifecycle(self, i, kind, before, rolled_back=False):
+        """C35: exactly one state; events of each object form a walk from the state before the operation to the state after it.
+        rolled_back: the operation was a rollback, or it raised and the harness rolled the session back (same exits apply)"""
         per = {}
         for name, oid in self.events:
             per.setdefault(oid, []).append(name)
@@ -1861,7 +2302,7 @@ class Run:
                 if src != cur:
                     # rollback of a transaction that had inserted the object: the transaction still counts an object that was expunged
                     # meanwhile as its own and sends it to transient, announcing that from the state it last had *in* the session
-                    if kind in ("rollback", "sp_rollback") and cur == "detached" and name == "persistent_to_transient":
+                    if rolled_back and cur == "detached" and name == "persistent_to_transient":
                         cur = dst
                         continue
                     ok = False
@@ -1870,7 +2311,7 @@ class Run:
             if ok and cur != after and not (cur == "unloaded" and not evs):
                 # an object that leaves the session in a rollback and whose row never got committed ends up without identity key
                 # ("transient"); the event vocabulary only has *_to_detached for leaving from the deleted state: same exit
-                if not (kind in ("rollback", "sp_rollback") and {cur, after} == {"detached", "transient"}):
+                if not (rolled_back and {cur, after} == {"detached", "transient"}):
                     ok = False
             if b == "unloaded" and not evs:
                 ok = True       # adopted without having been observed before
